@@ -1,76 +1,9 @@
 ------------------------------ MODULE AutoFert ------------------------------
 (***************************************************************************)
-(* Automatic N fertilisation (hermes/nitro.go Nitro(), the AUTOFERT branch, *)
-(* lines 71-230): the decision table that turns the three "N dressings" of  *)
-(* a row of the automatic-management table into fertiliser applications.    *)
-(*                                                                          *)
-(* A dressing k of the rotation entry is keyed by nd[k] (NDOY1..3):         *)
-(*    nd < 10 : a development stage (the "S3" notation of the table);       *)
-(*              first dressing only: 0 = on the sowing day                  *)
-(*    nd >= 10: a day of year.  The first dressing is then applied on the    *)
-(*              first day AFTER that day of year (and before day 210) on    *)
-(*              which a weather condition holds (five-day temperature sum,  *)
-(*              little rain: the nondeterministic parameter trig), and the  *)
-(*              key is set to 370 so that it never fires again; the second  *)
-(*              and third dressing are applied on exactly that day of year. *)
-(* A stage-keyed dressing resets its key to 0 when it fires, which is what  *)
-(* makes it fire once although the crop stays in the stage for many days.   *)
-(* The amount is the demand of the dressing minus the mineral N found in    *)
-(* the soil (first dressing: 0-30 cm; later dressings: the rooted layers,   *)
-(* at most 90 cm), never negative.  Organic fertiliser ordered by the       *)
-(* rotation entry is spread after the harvest of the previous entry ("H")   *)
-(* or a number of days after sowing ("S"); its mineral part goes to the     *)
-(* fertiliser pool ("H") or directly into the top layer ("S").              *)
-(*                                                                          *)
-(* The operators are used twice: the small machine below is explored by TLC *)
-(* (MC_AutoFert), and Trace_Sys evaluates Predict on the state the real     *)
-(* code logged before the block and compares keys and amount with what the  *)
-(* code did.                                                                *)
+(* Design-level machine over the decision table of the automatic N          *)
+(* dressings (operators and their description: AutoFertFn.tla).             *)
 (***************************************************************************)
-EXTENDS Integers, Sequences
-
-Max2(a, b) == IF a > b THEN a ELSE b
-Min2(a, b) == IF a < b THEN a ELSE b
-NoFire(nd) == [fire |-> FALSE, nd |-> nd]
-
-\* first dressing (nitro.go 109-162); reset = the key is cleared when it fires (FALSE only in the control model)
-First(nd, sowday, stage, tag, trig, reset) ==
-   IF nd < 10
-   THEN IF nd = 0 THEN [fire |-> sowday, nd |-> 0]
-        ELSE IF stage = nd THEN [fire |-> TRUE, nd |-> IF reset THEN 0 ELSE nd] ELSE NoFire(nd)
-   ELSE IF tag > nd /\ tag < 210 /\ nd < 365 /\ trig THEN [fire |-> TRUE, nd |-> IF reset THEN 370 ELSE nd] ELSE NoFire(nd)
-\* second and third dressing (nitro.go 163-226)
-Later(nd, stage, tag, reset) ==
-   IF nd < 10
-   THEN IF stage = nd THEN [fire |-> TRUE, nd |-> IF reset THEN 0 ELSE nd] ELSE NoFire(nd)
-   ELSE IF tag = nd THEN [fire |-> TRUE, nd |-> nd] ELSE NoFire(nd)
-Amount(dem, nmin) == Max2(dem - nmin, 0)
-
-\* The whole block for one day.  p = state before the block:
-\*   akf, saat (sowing date of the entry, 0 = not yet sown), stage, tag (day of year), wurz (rooted layers),
-\*   nd, dem (3-sequences), nmin30, nminw (mineral N 0-30 cm / rooted layers), c10 (mineral N of the top layer),
-\*   orgHprev (organic fertiliser of the previous entry is due after its harvest), ztdgPrev (its day), ndirPrev (its mineral part),
-\*   orgS (organic fertiliser of this entry is due after sowing), orgdoy, ztdgCur, ndirCur
-\* result: keys after the block, N added to the fertiliser pool, N added to the top layer, day of the "S" application
-Predict(p, zeit, trig, reset) ==
-   LET orgH == IF p.akf >= 1 /\ p.orgHprev /\ zeit = p.ztdgPrev THEN p.ndirPrev ELSE 0
-       season == p.saat > 0 /\ zeit >= p.saat
-       zs == IF season /\ p.orgS /\ zeit = p.saat THEN zeit + p.orgdoy ELSE p.ztdgCur
-       sFire == season /\ p.orgS /\ zeit = zs
-       top == IF sFire THEN Max2(p.c10 + p.ndirCur, 0) - p.c10 ELSE 0
-       n30 == p.nmin30 + top
-       nw == p.nminw + (IF p.wurz >= 1 THEN top ELSE 0)
-       d1 == First(p.nd[1], zeit = p.saat, p.stage, p.tag, trig, reset)
-       d2 == Later(p.nd[2], p.stage, p.tag, reset)
-       d3 == Later(p.nd[3], p.stage, p.tag, reset)
-       a1 == IF d1.fire THEN Amount(p.dem[1], n30) ELSE 0
-       a2 == IF d2.fire THEN Amount(p.dem[2], nw) ELSE 0
-       a3 == IF d3.fire THEN Amount(p.dem[3], nw) ELSE 0
-   IN IF season
-      THEN [nd |-> <<d1.nd, d2.nd, d3.nd>>, pool |-> orgH + a1 + a2 + a3, top |-> top, ztdgCur |-> zs,
-            fired |-> <<d1.fire, d2.fire, d3.fire>>, amounts |-> <<a1, a2, a3>>]
-      ELSE [nd |-> p.nd, pool |-> orgH, top |-> 0, ztdgCur |-> p.ztdgCur,
-            fired |-> <<FALSE, FALSE, FALSE>>, amounts |-> <<0, 0, 0>>]
+EXTENDS AutoFertFn
 
 \* =============================================================================================
 \* design-level machine: one growing season of Days days (the calendar year is the season: tag = day), the crop is
